@@ -182,6 +182,18 @@ func genC12(x *Ctx) *c12Scen {
 		})
 		sc.Admins = append(sc.Admins, ops)
 	}
+	if ops := sc.Admins[0]; len(ops) > 0 && tp.Chance(12) {
+		// the long-lived server: before one of its changes the first admin task answers a few hundred
+		// requests to different URLs of the service it is about to change (World.Burst; not judged)
+		at := tp.G(len(ops))
+		b := AdminOp{Kind: "burst", N: []int{140, 300}[tp.G(2)]}
+		if nx := ops[at]; nx.Kind == "route" || nx.Kind == "unroute" || nx.Kind == "add" || nx.Kind == "remove" {
+			b.Focus = nx.Svc + 1
+		}
+		out := append([]AdminOp{}, ops[:at]...)
+		out = append(out, b)
+		sc.Admins[0] = append(out, ops[at:]...)
+	}
 	minClients := 1
 	if sc.Rendezvous {
 		minClients = 2
@@ -261,6 +273,12 @@ func runC12(x *Ctx) {
 		}
 	}
 	w.Start(init)
+	for _, op := range sc.Admins[0] {
+		if op.Kind == "burst" {
+			s.MaxSteps += 30 * op.N
+			x.Count("reach:burst-of-distinct-urls")
+		}
+	}
 	restful.EnableTracing(sc.Trace)
 
 	var hists [][]histOp
